@@ -305,6 +305,7 @@ type Obligation struct {
 	Model    string
 	File     string
 	FnName   string
+	Ctx      *ReplayCtx
 }
 
 type Query struct {
